@@ -544,6 +544,39 @@ def gen_registration():
     return out
 
 
+# ---------------------------------------------------------------------------
+# folds next to Groups: only a fold that IS a Group leaf aggregates across the Group's items; after a Group step, or inside Auto below a Group, it is a plain fold
+
+def around_groups_menu():
+    from glom import Auto, Pipe
+    from glom.grouping import Group
+    lists = [[1, 2], [3], [4]]
+    rows = [{'v': [1, 2]}, {'v': [3]}]
+    return [
+        ('flatten-after-group-step', lambda: glom(rows, (Group([T['v']]), Flatten())), [1, 2, 3]),
+        ('sum-after-group-step', lambda: glom([1, 2, 3], (Group([T]), Sum())), 6),
+        ('merge-after-group-step', lambda: glom([{'a': 1}, {'b': 2}], (Group([T]), Merge())), {'a': 1, 'b': 2}),
+        ('lazy-flatten-after-group-step', lambda: list(glom(lists, (Group([T]), Flatten(init='lazy')))), [1, 2, 3, 4]),
+        ('fold-in-pipe-after-group', lambda: glom([1, 2, 3], Pipe(Group({T % 2: [T]}), T[1], Sum())), 4),
+        ('auto-sum-per-item-inside-group', lambda: glom(lists, Group([Auto(Sum())])), [3, 3, 4]),
+        ('auto-dict-per-item-inside-group', lambda: glom(lists, Group([Auto({'s': Sum(), 'l': [T]})])), [{'s': 3, 'l': [1, 2]}, {'s': 3, 'l': [3]}, {'s': 4, 'l': [4]}]),
+        ('auto-flatten-per-item-under-key', lambda: glom([[[1], [2]], [[3]]], Group({len: [Auto(Flatten())]})), {2: [[1, 2]], 1: [[3]]}),
+        ('group-leaf-sum-still-aggregates', lambda: glom([1, 2, 3], Group(Sum())), 6),
+        ('group-then-group', lambda: glom([1, 2, 3], (Group([T]), Group(Sum()))), 6),
+    ]
+
+
+def run_around_groups(i):
+    name, f, want = around_groups_menu()[i]
+    try:
+        got = f()
+    except Exception as e:
+        return R({'expected': repr(want), 'observed': 'raised %r' % (e,), 'case': name}, name)
+    if got != want or type(got) is not type(want):
+        return R({'expected': repr(want), 'observed': repr(got), 'case': name}, name)
+    return R(None, name, nontrivial=True, steps=1)
+
+
 def subs(tier, only=None):
     from ..engine import fast_tracebacks
     fast_tracebacks()
@@ -552,6 +585,8 @@ def subs(tier, only=None):
             rule='case = (spec term, input A, input B): one spec object evaluated on A, A again and B, each against the plain reduction; '
                  'input snapshots, init() call count and identity disjointness of inputs and results',
             min_nontrivial=10000, min_outcomes=2, required_tags=['fold', 'sum', 'flatten', 'merge', 'list', 'tuple', 'gen', 'dictkeys', 'scalar'] + list(MENUS)),
+        Sub('folds-around-groups', list(range(len(around_groups_menu()))), run_around_groups,
+            rule='fixed menu: Sum / Flatten / Merge as a chain step after a Group, inside Auto below a Group, as Group leaf', min_nontrivial=10, min_outcomes=10),
         Sub('registration-histories', gen_registration(), run_registration,
             rule='case = (Sum | Flatten | Fold | Merge, history of <= 4 events over {fold, register another iterate handler, register iterate=False, register iter} '
                  'ending in a fold) on one Glommer and ONE spec object: every fold uses the registration in force', min_nontrivial=300, min_outcomes=1),
